@@ -315,11 +315,13 @@ def run_N5(ctx, case):
         for k, (ins, ar) in enumerate(plans):
             base = k * tp.size(); it.mem.store(Ptr('programs', base + po[1]), len(ins), 4); it.mem.store(Ptr('programs', base + po[2]), ar, 4)
             for j, (kd, d, s_) in enumerate(ins):
-                imm = z3.BitVec('imm_%d_%d' % (k, j), 32); mo = z3.BitVec('mod_%d_%d' % (k, j), 8) if single else z3.BitVecVal(((variant + k + j) % 4) << 2, 8); imms[(k, j)] = (imm, mo)
+                REP = [5, 0x7ff, 0x800, 0x12345, 0x1000000, 0x7fffffff, 0x80000000, 0xfffff800, 0xffffffff, 0xfedcba98, 63, 0x1f000]      # stitched variants: concrete immediates of every materialisation class (symbolic ones are covered by the single-instruction jobs)
+                imm = z3.BitVec('imm_%d_%d' % (k, j), 32) if single else z3.BitVecVal(REP[(variant * 3 + 5 * k + j) % len(REP)], 32); mo = z3.BitVec('mod_%d_%d' % (k, j), 8) if single else z3.BitVecVal(((variant + k + j) % 4) << 2, 8); imms[(k, j)] = (imm, mo)
+                if kd == 'IROR_C':
+                    if single: fk['pc'] += [z3.UGE(imm, 1), z3.ULE(imm, 63)]
+                    else: imm = z3.BitVecVal(1 + (variant * 7 + 11 * k + j) % 63, 32); imms[(k, j)] = (imm, mo)
                 if kd == 'IMUL_RCP': rcps.append(z3.BitVec('rcp_%d_%d' % (k, j), 64)); immv = len(rcps) - 1
                 else: immv = imm
-                if kd == 'IROR_C': fk['pc'] += [z3.UGE(imm, 1), z3.ULE(imm, 63)]
-                if not single and (kd.startswith('IADD_C') or kd.startswith('IXOR_C')): fk['pc'].append(CLASSES[(variant + k + j) % 4](imm))
                 for b_, v in enumerate((KN[kd], d, s_, mo)): it.mem.store(Ptr('programs', base + 8 * j + b_), v, 1)
                 it.mem.store(Ptr('programs', base + 8 * j + 4), immv, 4)
         it.mem.alloc(24, 'rcpvec'); it.mem.alloc(8 * max(1, len(rcps)), 'rcpbuf')
@@ -388,5 +390,5 @@ def jobs_N5(ctx):
 LEMMAS['N5'] = dict(jobs=jobs_N5, run=run_N5, units=['a64'], a64=True,
     functions=['JitCompilerA64::generateSuperscalarHash', 'emitAddImmediate', 'emitMovImmediate', 'assembled templates: randomx_calc_dataset_item_aarch64 (prologue, prefetch, mix, store_result)'],
     doc='the dataset-item function the ARM64 back-end generates (templates of the runtime + code emitted for a SuperscalarHash program list + literal pools), executed under the A64 model for a symbolic cache and item number == specification 7.3 with the instruction semantics of 6.1; reads exactly one cache line per program at 64*(cacheIndex mod lines), writes the 64 output bytes, restores registers (x20 is scratch) and sp',
-    bound='(a) program lists of 8 programs x 2 (quick) / 4 instructions drawn from all 14 kinds (4 / 16 variants), reciprocals and immediates symbolic (IADD_C/IXOR_C immediates inside one of four materialisation classes, IADD_RS shift fixed per position); (b) every kind alone in one program with an unconstrained immediate (1 / 8 register choices); any cache content and item number', symbolic='cache (cut points), item number, immediates, reciprocals, entry registers, stack content',
+    bound='(a) program lists of 8 programs x 2 (quick) / 4 instructions drawn from all 14 kinds (4 / 16 variants), reciprocals symbolic, immediates and shifts concrete representatives of every materialisation class; (b) every kind alone in one program with an unconstrained immediate (1 / 8 register choices); any cache content and item number', symbolic='cache (cut points), item number, immediates, reciprocals, entry registers, stack content',
     stubs=['cache words := fresh symbols at recorded addresses', 'A64 semantics: engine/a64sem.py'], outside='randomx_init_dataset_aarch64 loop (3 instructions around the call)')
